@@ -156,7 +156,14 @@ class PfWorld(World):
 
     # ------------------------------------------------------------------
     def _H(self):
-        H = simlib.priv(self.sim, "_PhaseField__old_psiP_e_pg")
+        try:
+            H = getattr(self.sim, "_PhaseField__old_psiP_e_pg")
+        except AttributeError:
+            # the private field was renamed by a refactoring: the history clause cannot be observed (the public result
+            # 'psiP' is evaluated on another quadrature and is not the committed field); every other oracle of this
+            # engine keeps deciding
+            self.ctx.probe("history_field_unobservable")
+            return np.zeros(0)
         return np.array(H)
 
     def _check_splits(self, what):
@@ -282,8 +289,14 @@ class PfWorld(World):
 
         if name == "solve":
             before = simlib.get_state(sim)
-            before_x = simlib.get_extra(sim, "PhaseField")
             fault = op.get("fault") if self.cfg.get("faults") else None
+            before_x = None
+            if fault:
+                try:
+                    before_x = simlib.get_extra(sim, "PhaseField")  # needed to restart the step after the failure
+                except Discard:
+                    fault = None  # private state renamed: the step cannot be restarted by hand, so it is not failed
+                    ctx.probe("fault_skipped_private_state_unobservable")
             if fault:
                 self.solver.arm(fault)
             failed = None
